@@ -174,7 +174,7 @@ def main():
         print("reference model does not reproduce the SMHasher verification constants", pins, file=sys.stderr)
         return 2
     maxL = 64 if tier == "quick" else 257
-    t_uf, t_pr = (60000, 120000) if tier == "quick" else (120000, 300000)
+    t_uf, t_pr = (240000, 300000) if tier == "quick" else (300000, 600000)
     val = validate_translator(60 if tier == "quick" else 400, common.get_seed(), 40 if tier == "quick" else 130)
     if val["n_mismatch"]:
         print("translator validation failed:", val["mismatches"], file=sys.stderr)
